@@ -69,23 +69,35 @@ Definition enc_sdata_resp (o : option iresp) : list Z :=
   | Some (r, sd) => 1 :: enc_resp_obs r ++ enc_bytes sd
   end.
 
+(* one operation: (observable output, configuration vector, client state, clock) *)
+Definition step_op (cfgv : list Z) (st : cstate) (now : Z) (o : op) : list Z * list Z * cstate * Z :=
+  match o with
+  | OSprEnter w => ([], cfgv, spr_enter (spr_call st w), now)
+  | OSprExit => ([], cfgv, spr_exit st, now)
+  | OOvEnter ovr => ([], cfgv, ov_enter st ovr, now)
+  | OOvExit => ([], cfgv, ov_exit st, now)
+  | OSetCfg slot v => ([], set_nth cfgv (Z.to_nat slot) v, st, now)
+  | OAdvance dt => ([], cfgv, st, now + dt)
+  | OCall c replies =>
+    let s := map (fun '(d, it) => (now + d, it)) replies in
+    let '(out, st', t, _, tr) := run_call (cfg_of cfgv) st c now s in
+    (enc_outcome enc_sdata_resp out ++ enc_trace tr ++ [t], cfgv, st', t)
+  end.
+
 (* run a history; the observable is, per call: outcome, trace, time after the call; then the final state *)
 Fixpoint run_history (cfgv : list Z) (st : cstate) (now : Z) (ops : list op) : list Z :=
   match ops with
   | [] => enc_state st
   | o :: rest =>
-    match o with
-    | OSprEnter w => run_history cfgv (spr_enter (spr_call st w)) now rest
-    | OSprExit => run_history cfgv (spr_exit st) now rest
-    | OOvEnter ovr => run_history cfgv (ov_enter st ovr) now rest
-    | OOvExit => run_history cfgv (ov_exit st) now rest
-    | OSetCfg slot v => run_history (set_nth cfgv (Z.to_nat slot) v) st now rest
-    | OAdvance dt => run_history cfgv st (now + dt) rest
-    | OCall c replies =>
-      let s := map (fun '(d, it) => (now + d, it)) replies in
-      let '(out, st', t, _, tr) := run_call (cfg_of cfgv) st c now s in
-      enc_outcome enc_sdata_resp out ++ enc_trace tr ++ [t] ++ run_history cfgv st' t rest
-    end
+    let '(out, cfgv', st', now') := step_op cfgv st now o in
+    out ++ run_history cfgv' st' now' rest
+  end.
+
+(* the client state after a history *)
+Fixpoint state_after (cfgv : list Z) (st : cstate) (now : Z) (ops : list op) : cstate :=
+  match ops with
+  | [] => st
+  | o :: rest => let '(_, cfgv', st', now') := step_op cfgv st now o in state_after cfgv' st' now' rest
   end.
 
 (* ---- decoding of the flat case ------------------------------------------------------------------- *)
